@@ -14,9 +14,7 @@ from pathlib import Path
 VERIF = Path(__file__).resolve().parent.parent
 PY = "/venv/bin/python"
 
-NOT_APPLICABLE = {
-    "C12": "arithmetic over real-valued instants (pairwise disjoint half-open windows computed with float division, margins, modulo clock, rounding at large epoch offsets): no clause is visible in the shape of the code; deciding it needs evaluation or a solver, which is outside the static-analysis family (DESIGN.md section 5)",
-}
+NOT_APPLICABLE: dict[str, str] = {}
 
 BASELINE = (
     "cd /repo && /venv/bin/python -m pytest -ra -q -p no:cacheprovider --timeout=900 "
